@@ -966,13 +966,15 @@ class ReadRun:
         from ..nodes import Node
         from ..simnet import SimNet
         net = SimNet(loop)
-        client = Node(net, 0)
+        # who: 0 = the reader / a server is a bystander; 1..3 = it is itself value signer who-1 (reads its own announcement,
+        # is handed values that name its own key)
+        client = Node(net, 0, key_index=self.case.get("client_key", 0))
         cov = client.add(DHTCommunity)
         servers = []
         all_nodes = [client]
         try:
             for i, spec in enumerate(self.case["servers"]):
-                sn = Node(net, 10 + i)
+                sn = Node(net, 10 + i, key_index=(spec.get("key") if spec.get("key") != self.case.get("client_key", 0) else None) or None)
                 all_nodes.append(sn)
                 sov = sn.add(DHTCommunity)
                 st = sov.get_storage(client.public_peer())     # the storage that serves IPv4 requesters
@@ -1483,9 +1485,11 @@ def _read_strategy():
     value = st.one_of(signed, signed, signed, signed, unsigned, forged, forged, quiet_garbage)
     loud = st.one_of(signed, signed, forged, garbage)
     server = st.fixed_dictionaries({"direct": st.sampled_from([True, True, False]),
+                                    "key": st.sampled_from([0, 0, 0, 1, 2]),
                                     "vals": st.one_of(st.lists(value, max_size=10), st.lists(value, min_size=2, max_size=8),
                                                       st.lists(loud, max_size=4))})
-    return st.fixed_dictionaries({"kind": st.just("read"), "servers": st.lists(server, min_size=1, max_size=4)})
+    return st.fixed_dictionaries({"kind": st.just("read"), "client_key": st.sampled_from([0, 0, 1, 2, 3]),
+                                  "servers": st.lists(server, min_size=1, max_size=4, unique_by=lambda sv: sv["key"] or id(sv))})
 
 
 def _storage_strategy():
